@@ -190,6 +190,13 @@ def run_plan(plan, cfg=None):
     res = {"verdict": "ok", "violations": [], "stats": {}, "probes": {}, "skip": None}
     obs = []
     seen = _st["seen"]
+
+    def cls(oc):
+        # a refusal is compared as a refusal, whatever its class or message: the statement is about
+        # generated text, and which of several defects of a request is reported may legitimately
+        # depend on iteration order
+        return "refused" if oc.startswith("refused") else oc
+
     start = _st["n"]
     stats = {"requests": 0, "refused": 0, "timeouts": 0, "repeats_in_this_interpreter": 0}
     for ri in plan["reqs"]:
@@ -205,6 +212,7 @@ def run_plan(plan, cfg=None):
             continue
         if oc.startswith("refused"):
             stats["refused"] += 1
+        oc = cls(oc)
         if ri in seen:
             stats["repeats_in_this_interpreter"] += 1
             if seen[ri][0] != oc:
@@ -372,7 +380,8 @@ def _main():
     uni = universe(spec["universe_seed"])
     last = {}
     for ri in spec["reqs"]:
-        last[str(ri)] = execute(uni[ri])
+        oc = execute(uni[ri])
+        last[str(ri)] = "refused" if oc.startswith("refused") else oc
     out_fd.write("@@" + json.dumps(last) + "\n")
     out_fd.flush()
 
